@@ -423,8 +423,55 @@ func vfC20Trial(t *testing.T, r *vfRand, trial int) bool {
 	return !hung
 }
 
+// vfC20CapacitySweep: the sizes newMultiScheduler REALLY gives its two semaphores (probed with TryAcquire on a fresh
+// scheduler, nothing running) for every capacity 1..40 and batchdiv in {default, 1..8, 16, 64}.  Each point is a Coq
+// case with an empty trace: the model's batch_cap (whose formula is tied to the source by translator/schedconsts and
+// theorem C20_batch_capacity_formula) must give the probed sizes; the Go oracle states the documented rule
+// ("batch queue size 1/batchdiv of capacity", default 1/4, at least one slot).
+func vfC20CapacitySweep(t *testing.T) {
+	for capacity := 1; capacity <= 40; capacity++ {
+		for _, batchdiv := range []int{0, 1, 2, 3, 4, 5, 6, 7, 8, 16, 64} {
+			old := zoektSched
+			zoektSched = map[string]int{}
+			if batchdiv != 0 {
+				zoektSched["batchdiv"] = batchdiv
+			}
+			sched := newMultiScheduler(int64(capacity))
+			zoektSched = old
+			capIObs := vfC20Free(sched.semInteractive)
+			capBObs := vfC20Free(sched.semBatch)
+			div := batchdiv
+			if div == 0 {
+				div = 4
+			}
+			wantB := capacity / div
+			if wantB < 1 {
+				wantB = 1
+			}
+			replay := map[string]any{"capacity": capacity, "batchdiv": batchdiv, "interactive_slots": capIObs, "batch_slots": capBObs,
+				"how": "newMultiScheduler(capacity) with zoektSched[batchdiv]; count successful TryAcquire(1) on semInteractive.sem / semBatch.sem"}
+			if capIObs != capacity {
+				vfOracleFail("capacity:interactive", fmt.Sprintf("newMultiScheduler(%d): interactive semaphore admits %d searches", capacity, capIObs), replay)
+			}
+			if capBObs != wantB {
+				vfOracleFail("capacity:batch", fmt.Sprintf("newMultiScheduler(%d) with batchdiv %d (0 = default 4): batch semaphore admits %d searches, the batch capacity is %d/%d = %d", capacity, batchdiv, capBObs, capacity, div, wantB), replay)
+			}
+			class := "sweep:exact-multiple"
+			if capacity%div != 0 {
+				class = "sweep:remainder"
+			}
+			if capacity < div {
+				class = "sweep:below-batchdiv"
+			}
+			coq := cTuple(cN(uint64(capacity)), cN(uint64(batchdiv)), cN(uint64(capIObs)), cN(uint64(capBObs)), "(@nil (N * N * N))")
+			vfCase(coq, vfKey("sweep", capacity, batchdiv), capacity%div != 0, []string{class, "capacity-sweep"}, replay) // non-trivial: the rounding matters
+		}
+	}
+}
+
 func TestVerifC20(t *testing.T) {
 	log.SetOutput(io.Discard)
+	vfC20CapacitySweep(t)
 	r := vfNewRand(vfSeed())
 	n := vfN(200)
 	for i := 0; i < n; i++ {
